@@ -300,15 +300,66 @@ func TestVerifC05CLI(t *testing.T) {
 			}
 		}
 		os.WriteFile(filepath.Join(d, "copy", "m.go"), []byte(progfam.RenderFile([]string{renamed})), 0o644)
-		for _, db := range []string{filepath.Join(d, "sigs.db"), filepath.Join(d, "sigs.json")} {
-			out, err := exec.Command(sfw, "index", "--name", "FAM", "--db", db, filepath.Join(d, "orig", "m.go")).CombinedOutput()
-			if err != nil {
-				r.Fail("sfw index: %v\n%s", err, out)
-				return
+		// the same copy behind a //line directive, as generated code carries
+		os.MkdirAll(filepath.Join(d, "gen"), 0o755)
+		genSrc := progfam.RenderFile([]string{"//line template.tmpl:40\n" + renamed})
+		os.WriteFile(filepath.Join(d, "gen", "m.go"), []byte(genSrc), 0o644)
+		// an unrelated function indexed by a SECOND run into the same database
+		os.MkdirAll(filepath.Join(d, "orig2"), 0o755)
+		otherBase := "ifelse"
+		if b.ID == "ifelse" {
+			otherBase = "upcount"
+		}
+		for _, ob := range bases {
+			if ob.ID == otherBase {
+				os.WriteFile(filepath.Join(d, "orig2", "n.go"), []byte(progfam.RenderFile([]string{progfam.Rename(ob.Src, "F", "Unrelated")})), 0o644)
 			}
-			for _, extra := range [][]string{{"--threshold", "1.0"}, {"--threshold", "0.75", "--exact"}} {
+		}
+		for _, db0 := range []string{filepath.Join(d, "sigs.db"), filepath.Join(d, "sigs.json")} {
+			db := db0
+			// two index runs; repeated (fresh database) until both fall into the same wall-clock
+			// second, the situation in which generated IDs can only differ by their counter
+			for attempt := 0; attempt < 4; attempt++ {
+				db = fmt.Sprintf("%s.%d%s", strings.TrimSuffix(db0, filepath.Ext(db0)), attempt, filepath.Ext(db0))
+				out, err := exec.Command(sfw, "index", "--name", "FAM", "--db", db, filepath.Join(d, "orig", "m.go")).Output()
+				if err != nil {
+					r.Fail("sfw index: %v\n%s", err, out)
+					return
+				}
+				out2, err := exec.Command(sfw, "index", "--name", "SECOND", "--db", db, filepath.Join(d, "orig2", "n.go")).Output()
+				if err != nil {
+					r.Fail("second sfw index: %v\n%s", err, out2)
+					return
+				}
+				stamp := func(o []byte) string {
+					var v struct {
+						Indexed []detection.Signature `json:"indexed"`
+					}
+					json.Unmarshal(o, &v)
+					if len(v.Indexed) == 0 {
+						return ""
+					}
+					p := strings.Split(v.Indexed[0].ID, "-")
+					if len(p) < 4 {
+						return v.Indexed[0].ID
+					}
+					return p[2]
+				}
+				if s1, s2 := stamp(out), stamp(out2); s1 != "" && s1 == s2 {
+					r.Count("index_run_pairs_within_one_second", 1)
+					break
+				}
+				r.Count("index_run_pairs_across_a_second_boundary", 1)
+			}
+			for _, extra0 := range [][]string{{"--threshold", "1.0"}, {"--threshold", "0.75", "--exact"}, {"--threshold", "1.0", "GEN"}} {
+				extra := extra0
+				scanned := filepath.Join(d, "copy", "m.go")
+				if extra[len(extra)-1] == "GEN" {
+					extra = extra[:len(extra)-1]
+					scanned = filepath.Join(d, "gen", "m.go")
+				}
 				args := append([]string{"scan", "--no-sandbox", "--db", db}, extra...)
-				args = append(args, filepath.Join(d, "copy", "m.go"))
+				args = append(args, scanned)
 				cmd := exec.Command(sfw, args...)
 				var stdout strings.Builder
 				cmd.Stdout = &stdout
@@ -327,7 +378,7 @@ func TestVerifC05CLI(t *testing.T) {
 						found = true
 					}
 				}
-				key := fmt.Sprintf("cli/%s/%s/%s", b.ID, filepath.Ext(db), strings.Join(extra, ""))
+				key := fmt.Sprintf("cli/%s/%s/%s", b.ID, filepath.Ext(db), strings.Join(extra0, ""))
 				r.Nontrivial(key)
 				if !found {
 					r.Violate(key, fmt.Sprintf("sfw index of %s as Target, then sfw scan %v of its renamed/reformatted copy: no alert FAM_Target with confidence 1.0 for function Other; alerts: %+v", b.ID, extra, so.Alerts), map[string]interface{}{"base": b.ID})
